@@ -161,3 +161,19 @@ A(M("c05-gap-unguarded", "C05", TT, "                if self.find_gaps:\n       
 A(M("c05-centroid-abs", "C05", AN, "        vector = numpy.array([coordinates[i][k] - coordinates[j][k] for k in (0, 1, 2)])", "        vector = numpy.array([coordinates[i][k] for k in (0, 1, 2)])", "invariance-typing"))
 A(M("c05-normal-unnormalised-silent", "C05", TT, "        return normal / numpy.linalg.norm(normal)", "        length = numpy.linalg.norm(normal)\n        return normal / length", kind="silent"))
 A(M("c05-lt-label", "C05", TT, "        return (self.model, self.chain, self.number, self.icode or \" \") < (\n            other.model,\n            other.chain,\n            other.number,\n            other.icode or \" \",\n        )", "        return (self.model, self.chain, self.number) < (\n            other.model,\n            other.chain,\n            other.number,\n        )", "identity-order"))
+
+# ---------------------------------------------------------------- C07
+A(M("c07-window-open", "C07", C, "candidate = self.entries[stops[i - 1] : stops[i] + 1]", "candidate = self.entries[stops[i - 1] : stops[i]]", ["index-discipline", "elements-windows"]))
+A(M("c07-stop-base", "C07", C, "stopset.add(stem.strand5p.last - 1)", "stopset.add(stem.strand5p.last)", ["index-discipline", "elements-stops"]))
+A(M("c07-link-base", "C07", C, "if self.entries[i_last - 1].pair == j_first:", "if self.entries[i_last].pair == j_first:", ["index-discipline", "elements-links"]))
+A(M("c07-strand-last", "C07", C, "last = first + len(entries) - 1", "last = first + len(entries)", ["index-discipline", "strand-span"]))
+A(M("c07-strand-slice", "C07", C, "structure = dotbracket[first - 1 : last]", "structure = dotbracket[first : last]", ["index-discipline", "strand-structure"]))
+A(M("c07-interior", "C07", C, "for entry in candidate[1:-1]]", "for entry in candidate[1:]]", "elements-windows"))
+A(M("c07-tail5", "C07", C, "self.entries[: stops[0] + 1],", "self.entries[: stops[0]],", ["index-discipline", "elements-tail5"]))
+A(M("c07-closure", "C07", C, "if self.entries[loop[0].first - 1].pair == loop[-1].last:", "if self.entries[loop[0].first].pair == loop[-1].last:", ["index-discipline", "elements-closure"]))
+A(M("c07-hairpin-test", "C07", C, "if candidate[0].pair == candidate[-1].index_:", "if candidate[0].pair == candidate[-1].pair:", "elements-windows"))
+A(M("c07-fcfs-structure", "C07", C, "                stem_entries, self.entries, self.dot_bracket.structure\n", "                stem_entries, self.entries, self.fcfs.structure\n", "elements-dotbracket"))
+A(M("c07-loop-sorted", "C07", C, "loops.append(Loop(loop))", "loops.append(Loop(sorted(loop, key=lambda strand: strand.first)))", "elements-closure"))
+A(M("c07-stem-coords", "C07", TT, "idx3p = stem.strand3p.last - i", "idx3p = stem.strand3p.first - i", "index-discipline"))
+A(M("c07-range-strand", "C07", TT, "for index_ in range(strand.first, strand.last + 1):", "for index_ in range(strand.first, strand.last):", "index-discipline"))
+A(M("c07-unpaired-test-silent", "C07", C, "if all([entry.pair == 0 for entry in candidate[1:-1]]):", "if all(entry.pair == 0 for entry in candidate[1:-1]):", kind="silent"))
